@@ -123,6 +123,24 @@ def _driver(rc: RuleCtx):
         # M1: the size gate, either tested on the popped range or maintained as an invariant of the work stack (the whole curve is
         # only seeded when it has more than t2 points and a child is only pushed when it has)
         early = [g_ for g_, _v in m.frame_pre.returns]
+        # an exit in front of the driver loop is the recursion skipped: right only for a curve the size gate rejects (at most t2
+        # points: no knee at all), and the value must then be empty
+        from .common import account_exits
+        from ..intervals import single_atom as _sa
+        exits_ok = True
+        for g_, v_ in m.frame_pre.returns:
+            if not g_sat(g_):
+                continue
+            a_ = _sa(v_) if isinstance(v_, Rat) else None
+            empty_ = (isinstance(v_, Vec) and not v_.items) or (a_ is not None and a_.name in ("np.array", "np.asarray", "np.empty", "np.zeros")
+                                                               and (not a_.args or a_.args[0].is_zero() or (_sa(a_.args[0]) is not None and _sa(a_.args[0]).name == "vec" and not _sa(a_.args[0]).args)))
+            if not (g_implies(g_, canon_sign(sym("n") - t2, OPS["<="])) and empty_):
+                exits_ok = False
+                res.violation("M1", m.fi.module, m.fi.name, m.fi.node,
+                              f"{tag}: a result is returned before the recursion starts under {_short(g_, 80)}, which is not 'at most t2 points: no knee'", _short(v_, 80),
+                              "return an empty array only if len(points) <= t2", construct="early exit multi_knee")
+        if exits_ok:
+            account_exits(m.fi)
         reach = g_not(g_or(*early)) if early else TRUE
         seed_inv = bool(early) and g_implies(reach, canon_sign(sym("n") - t2, OPS[">"]))
         push_inv = all(isinstance(p.items[-1], Rat) and isinstance(p.items[-2], Rat)
